@@ -248,7 +248,8 @@ def expand_call(helper, call, caller_locals, is_method=False, receiver=None, res
     with the result."""
     if _has_yield(helper):
         raise _Refuse('generator')
-    if helper.decorator_list:
+    if helper.decorator_list and not (len(helper.decorator_list) == 1 and u_(helper.decorator_list[0]) == 'staticmethod'
+                                      and not is_method):
         raise _Refuse('decorated helper')
     body = copy.deepcopy(_body(helper))
     if not any_returns and not _returns_in_tail_only(body):
@@ -331,6 +332,9 @@ class Inliner:
         if isinstance(call.func, ast.Attribute) and isinstance(call.func.value, ast.Name) and self.cls is not None \
                 and (self.cls, call.func.attr) in self.methods and call.func.value.id in ('self', 'cls'):
             h = self.methods[(self.cls, call.func.attr)]
+            if [u_(d) for d in h.decorator_list] == ['staticmethod']:
+                # self._h(x) of a @staticmethod is the plain function call _h(x)
+                return h, False, None
             if any(u_(d) in ('staticmethod', 'classmethod', 'property') for d in h.decorator_list):
                 return None
             return h, True, call.func.value
